@@ -82,6 +82,7 @@ def run(run: Run) -> int:
         if any(not pyside.is_key(fr) for _, fr in s) and run.rng.random() < 0.3:
             # a near twin right after it: the counts inside the groups differ in the seventh digit only
             cases.append(_perturb(s, 1.0000003))
+    cases += cases[:150]                    # replay consistency: the first cases once more at the end
     lines = pyside.mass_table_lines(tbl)   # no `sym` lines: the model uses the generated symbol table
     for s in cases:
         lines += ["reset", "new 0 " + pyside.struct_tokens(s), "hill 1 0", "struct 1", "hill 2 1", "struct 2"]
